@@ -468,13 +468,15 @@ def build():
              alts={"delay1": [lambda: 1], "delay2": [lambda: 6, lambda: 5], "past": [lambda: 3, lambda: 2], "preprocessing": [lambda: TimeSeriesDifference(2), lambda: None]}))
     add(Spec("DummyTimeSeriesRegressor",
              [lambda: DummyTimeSeriesRegressor(), lambda: DummyTimeSeriesRegressor(past=2),
-              lambda: DummyTimeSeriesRegressor(past=2, preprocessing=TimeSeriesDifference(1))],
+              lambda: DummyTimeSeriesRegressor(past=2, preprocessing=TimeSeriesDifference(1)),
+              lambda: DummyTimeSeriesRegressor(past=1, preprocessing=TimeSeriesDifference(3))],
              ts_data, lambda r: ts_data(r, n=17), kind="ts", methods=["predict"],
              query=lambda rng, D: (D["X"], D["y"]), out=lambda est, m, Q: numpy.asarray(est.predict(Q[0], Q[1])),
              alts={"delay1": [lambda: 1], "delay2": [lambda: 6, lambda: 5], "past": [lambda: 3, lambda: 2], "estimator": [lambda: "dummy"],
                    "preprocessing": [lambda: TimeSeriesDifference(1), lambda: None]}))
     add(Spec("ARTimeSeriesRegressor",
-             [lambda: ARTimeSeriesRegressor(), lambda: ARTimeSeriesRegressor(past=1, delay2=2)],
+             [lambda: ARTimeSeriesRegressor(), lambda: ARTimeSeriesRegressor(past=1, delay2=2),
+              lambda: ARTimeSeriesRegressor(past=1, preprocessing=TimeSeriesDifference(3))],
              ts_data, lambda r: ts_data(r, n=17), kind="ts", methods=["predict"],
              query=lambda rng, D: (D["X"], D["y"]), out=lambda est, m, Q: numpy.asarray(est.predict(Q[0], Q[1])),
              alts={"delay1": [lambda: 1], "delay2": [lambda: 6, lambda: 5], "past": [lambda: 3, lambda: 2], "preprocessing": [lambda: None]}))
